@@ -89,48 +89,7 @@ fn create_unexpected_character<R: Read, T: IntoIterator<Item = char>>(reader: &R
     ensures r is UnexpectedCharacter
 { unimplemented!() }
 
-// ---- L1: look-ahead discipline, progress, fault propagation (C01.look, C05.progress, C16.read) ----
-pub ghost struct RView { pub pending: Seq<Option<u8>>, pub cur: Option<u8>, pub ok: bool, pub name: Option<String> }
-pub open spec fn rview<R: Read>(r: &Reader<R>) -> RView { RView { pending: r.pending(), cur: r.cur(), ok: r.wf() && r.room(), name: r.name() } }
-pub open spec fn is_io<T>(r: Result<T>) -> bool { r is Err && r->Err_0 is IoError }
-// what every parsing function guarantees about the reader
-pub open spec fn lex_post<T>(o: RView, n: RView, r: Result<T>) -> bool {
-    &&& n.ok && n.name == o.name
-    // unless a read failed (always reported as the fatal IoError, never as end of input or as a value): only a prefix of
-    // the pending bytes is consumed, nothing is reordered or put back, and every consumed byte was a delivered byte
-    &&& (is_io(r) || advance(o.pending, n.pending))
-    // after a value the byte that follows it is the current byte
-    &&& (r is Ok ==> (n.cur is None ==> n.pending.len() == 0))
-}
-// a value or a recoverable error has consumed at least one byte: the read loop always makes progress
-pub open spec fn progress<T>(o: RView, n: RView, r: Result<T>) -> bool { !is_io(r) ==> n.pending.len() < o.pending.len() }
-
-pub open spec fn value_kind(b: u8, v: JsonValue) -> bool {
-    if b == 0x74u8 { v == JsonValue::Boolean(true) } else if b == 0x66u8 { v == JsonValue::Boolean(false) } else if b == 0x6eu8 { v == JsonValue::Null }
-    else if b == 0x22u8 { v is String } else if b == 0x5bu8 { v is Array } else if b == 0x7bu8 { v is Object } else { (b == 0x2du8 || is_digit(b)) && v is Number }
-}
-pub trait JsonParser {
-    spec fn rv(&self) -> RView;
-//@@ fn jsonparser.next_json_value = src/json_parser.rs :: trait JsonParser :: fn next_json_value
-//@@ ret r
-//@@ header
-        requires old(self).rv().ok,
-        ensures
-            lex_post(old(self).rv(), final(self).rv(), r), // @tobl L1.post
-            // Ok(None) only at the true end of the input
-            r is Ok && r->Ok_0 is None ==> final(self).rv().pending.len() == 0, // @tobl L1.eof
-            !(r is Ok && r->Ok_0 is None) ==> progress(old(self).rv(), final(self).rv(), r), // @tobl L1.progress
-            // end of input is reported only when nothing but white space was left: no value is ever dropped silently
-            r is Ok && r->Ok_0 is None ==> ws_run(old(self).rv().pending) == old(self).rv().pending.len(), // @tobl L2.eof_only_ws
-            // a byte that cannot start a value is a recoverable error that consumes the white space before it and exactly that byte
-            ({ let p = old(self).rv().pending; let w = ws_run(p) as int;
-               !is_io(r) && at(p, w) is Some && !starts_value(at(p, w)->0) ==> r is Err && final(self).rv().pending.len() == p.len() - w - 1 }), // @tobl L2.resync
-            // the kind of value returned is the one its first byte announces
-            ({ let p = old(self).rv().pending; let w = ws_run(p) as int;
-               r is Ok && r->Ok_0 is Some ==> at(p, w) is Some && value_kind(at(p, w)->0, r->Ok_0->0) }), // @tobl L2.dispatch
-        decreases old(self).rv().pending.len(), 2int,
-//@@ endfn
-}
+//@@ include prelude/json_parser_trait.rs
 
 pub trait JsonParserUtils {
     spec fn rv2(&self) -> RView;
